@@ -380,9 +380,18 @@ Definition a_classify (hist : list (aop * aout)) (o : aop) (e seen : aout) : N :
 Definition a_mon := mon_run a_expected aout_eqb a_classify.
 
 (** The monitor the check evaluates: a divergence is attributed to a finding class only if
-    the trace up to and including the diverging call actually leaves the guard; inside the
-    guard every divergence is class 1 (it would contradict the guarded theorem). *)
+    the trace up to and including the diverging call has left the guard; a divergence while
+    every call so far satisfied the guard is class 1 (it contradicts the guarded theorem). *)
+Fixpoint a_div_in_guard (i : N) (hist tr : list (aop * aout)) (g : bool) : option N :=
+  match tr with
+  | [] => None
+  | (o, seen) :: tr' =>
+      let g' := g && a_guard hist o in
+      if aout_eqb (a_expected hist o) seen then a_div_in_guard (i + 1) ((o, seen) :: hist) tr' g'
+      else if g' then Some i else None
+  end.
 Definition a_mon_checked (tr : list (aop * aout)) : N :=
-  let m := a_mon tr in
-  if N.eqb m 0 then 0
-  else if a_guards (firstn (S (N.to_nat (m / 100))) tr) then (m / 100) * 100 + 1 else m.
+  match a_div_in_guard 0 [] tr true with
+  | Some i => i * 100 + 1
+  | None => a_mon tr
+  end.
